@@ -482,10 +482,11 @@ def generate():
         mt = sorted((v, k) for k, v in MetricType.items())
     except Exception as e:  # noqa: B902
         raise Untranslatable(f'deepproto MetricType not importable: {e}')
-    parts.append('/-- `MetricType.Name(n)` of the installed deepproto (unknown number: ValueError, modelled as "") -/\n'
+    parts.append('/-- `MetricType.Name(n)` of the installed deepproto; proto3 enums are open, a number this version does not\n'
+                 '    know raises ValueError: `none` -/\n'
                  'def metricTypeNames : List (Nat × String) := [' +
                  ', '.join(f'({v}, {lean_str(k)})' for v, k in mt) + ']\n'
-                 'def metricTypeName (n : Nat) : String := (metricTypeNames.lookup n).getD ""\n')
+                 'def metricTypeName (n : Nat) : Option String := metricTypeNames.lookup n\n')
     parts.append(textwrap.dedent('''\
         /-- what the getters of a protobuf `LabelExpression` return: `static` = the set member of the AnyValue when the
             oneof holds a static value, `expression` = the text or "" -/
@@ -530,21 +531,52 @@ def generate():
     var, elt = comp_map(cmd, 'metrics')
     sub = {f'{var}.{a}': f'{var}.{a}' for a in ('name', 'expression', 'help', 'unit', 'type', 'labelExpressions')}
     sub[f'{var}.namespace'] = f'{var}.«namespace»'
+    names_used = []
+
+    def type_name(a):
+        names_used.append(a[0])
+        return 'type_name__'
     trm = TriggerTranslator(ctors, subst=sub,
-                            calls={'MetricType.Name': lambda a: f'(metricTypeName {a[0]})',
+                            calls={'MetricType.Name': type_name,
                                    'convert_label_expressions': lambda a: f'(convert_label_expressions {a[0]})'})
-    parts.append('def convert_metric_definition (metrics : List PMetric) : List MetricDefinition :=\n'
-                 f'  metrics.map (fun {var} => {trm.expr(elt)})\n')
+    body = trm.expr(elt)
+    if names_used == [f'{var}.type']:
+        # MetricType.Name raises for an unknown number: the conversion of the whole list raises (`none`)
+        body = f'Option.map (fun type_name__ => {body}) (metricTypeName {var}.type)'
+    elif not names_used:
+        body = f'some {body}'
+    else:
+        raise Untranslatable(f'__convert_metric_definition: MetricType.Name used on {names_used}')
+    parts.append('/-- `none` = an exception (ValueError of `MetricType.Name`) leaves `__convert_metric_definition` -/\n'
+                 'def convert_metric_definition (metrics : List PMetric) : Option (List MetricDefinition) :=\n'
+                 f'  metrics.mapM (fun {var} => {body})\n')
 
     # ---- convert_response: exact template ---------------------------------------------------------------------------
     cr = find_def(grpc, 'convert_response')
+    # is the conversion of ONE tracepoint (metric definitions + build_trigger) guarded by try/except Exception: continue?
+    guarded = False
+    loops = [n for n in strip_doc(list(cr.body)) if isinstance(n, ast.For)]
+    if len(loops) == 1 and loops[0].body and isinstance(loops[0].body[0], ast.Try):
+        t = loops[0].body[0]
+        if (len(t.body) == 1 and isinstance(t.body[0], ast.Assign) and len(t.handlers) == 1 and not t.orelse
+                and not t.finalbody and t.handlers[0].type is not None
+                and ast.unparse(t.handlers[0].type) in ('Exception', 'BaseException')
+                and isinstance(t.handlers[0].body[-1], ast.Continue)
+                and all(isinstance(x, ast.Expr) for x in t.handlers[0].body[:-1])):
+            guarded = True
+            cr = ast.parse(ast.unparse(cr)).body[0]                  # private copy, then splice the guarded statement
+            lp = [n for n in cr.body if isinstance(n, ast.For)][0]
+            lp.body[0] = lp.body[0].body[0]
     if not same_shape(cr, CONVERT_RESPONSE):
         raise Untranslatable('convert_response changed shape (expected: build, skip None, group by trigger.id with '
                              'merge_actions, return values in insertion order)')
     parts.append('/-- convert_response matches the template: build_trigger per tracepoint, `None` skipped, grouped by\n'
                  '    `trigger.id` (first trigger of an id keeps its location, later ones merge their actions), values in\n'
                  '    insertion order.  The model of this loop is `TriggerBuild.convertResponse`. -/\n'
-                 'def convertResponseSkipsNone : Bool := true\n')
+                 'def convertResponseSkipsNone : Bool := true\n'
+                 '/-- the conversion of one tracepoint (metric definitions, build_trigger) sits in\n'
+                 '    `try: … except Exception: continue`: an exception costs that tracepoint only -/\n'
+                 f'def convertResponseGuardsBuild : Bool := {"true" if guarded else "false"}\n')
     # ---- add_custom: is the result of build_trigger checked before it is stored? -----------------------------------
     ac = find_def(load(CFGSVC), 'TracepointConfigService.add_custom')
     body = strip_doc(list(ac.body))
